@@ -461,7 +461,7 @@ def replay_one(rec, d, idx, seed, aspects, reference, skip_load_divergent=None):
     # detection demonstration without rebuilding wild: VERIF_SYMRES_DEMO=patch-output:<n> corrupts the identity word
     # in wild's output of every n-th replayed case before it is observed -> the check must report a VIOLATION
     demo = os.environ.get("VERIF_SYMRES_DEMO", "")
-    patch = demo.startswith("patch-output:") and idx % int(demo.split(":")[1]) == 0
+    patch = demo.startswith("patch-output:") and idx > 0 and idx % int(demo.split(":")[1]) == 0
     res, line = run_case(cfg, d, variant=variant, threads=threads, env=env, patch_wild=patch)
     R = norm_outcome(rec["expect"], cfg)
     M = norm_outcome(rec["model"], cfg)
